@@ -1,3 +1,948 @@
 package main
 
-func resolveMain(args []string) {}
+// c09 resolve: valid programs from a small grammar; one construct planted at a
+// random syntactic position (a rule violation, or a construct gated by a
+// dialect option); every program is pushed through the real pipeline
+// (parse -> resolve -> compile -> run) under option vectors, with predeclared
+// built-ins that log their calls.  Printed per program: the real syntax tree
+// (positions as the resolver reports them), the planted construct with the
+// outcome expected from the language rules, and per option vector the
+// resolver's error list (rule class, position), whether the program was
+// accepted, ran, and how many host-visible effects happened.
+
+import (
+	"flag"
+	"fmt"
+	"sort"
+	"strings"
+
+	"go.starlark.net/resolve"
+	"go.starlark.net/starlark"
+	"go.starlark.net/syntax"
+
+	"verifharness/internal/hx"
+)
+
+// ------------------------------------------------------------ rule classes
+func ruleOf(msg string) string {
+	switch {
+	case strings.Contains(msg, "not in a loop"):
+		return "RBranchNotInLoop"
+	case strings.Contains(msg, "if statement not within a function"):
+		return "RIfToplevel"
+	case strings.Contains(msg, "for loop not within a function"):
+		return "RForToplevel"
+	case strings.Contains(msg, "does not support while loops"):
+		return "RWhileUnsupported"
+	case strings.Contains(msg, "while loop not within a function"):
+		return "RWhileToplevel"
+	case strings.Contains(msg, "return statement not within a function"):
+		return "RReturnToplevel"
+	case strings.Contains(msg, "load statement within a function"):
+		return "RLoadInFunction"
+	case strings.Contains(msg, "load statement within a loop"):
+		return "RLoadInLoop"
+	case strings.Contains(msg, "load statement within a conditional"):
+		return "RLoadInConditional"
+	case strings.Contains(msg, "leading underscores"):
+		return "RLoadUnderscore"
+	case strings.Contains(msg, "in augmented assignment"):
+		return "RAugSeq"
+	case strings.Contains(msg, "can't assign to"):
+		return "RBadAssign"
+	case strings.Contains(msg, "multiple **kwargs not allowed"):
+		return "RArgMultipleKwargs"
+	case strings.Contains(msg, "*args may not follow **kwargs"):
+		return "RArgStarAfterKwargs"
+	case strings.Contains(msg, "multiple *args not allowed"):
+		return "RArgMultipleStar"
+	case strings.Contains(msg, "keyword argument may not follow **kwargs"):
+		return "RArgNamedAfterKwargs"
+	case strings.Contains(msg, "keyword argument may not follow *args"):
+		return "RArgNamedAfterStar"
+	case strings.Contains(msg, "is repeated"):
+		return "RArgRepeatedName"
+	case strings.Contains(msg, "positional argument may not follow *args"):
+		return "RArgPosAfterStar"
+	case strings.Contains(msg, "positional argument may not follow **kwargs"):
+		return "RArgPosAfterKwargs"
+	case strings.Contains(msg, "positional argument may not follow named"):
+		return "RArgPosAfterNamed"
+	case strings.Contains(msg, "positional arguments in call, limit is 255"):
+		return "RArgTooManyPos"
+	case strings.Contains(msg, "keyword arguments in call, limit is 255"):
+		return "RArgTooManyNamed"
+	case strings.Contains(msg, "required parameter may not follow **"):
+		return "RParReqAfterKwargs"
+	case strings.Contains(msg, "required parameter may not follow optional"):
+		return "RParReqAfterOptional"
+	case strings.Contains(msg, "duplicate parameter"):
+		return "RParDuplicate"
+	case strings.Contains(msg, "optional parameter may not follow **"):
+		return "RParOptAfterKwargs"
+	case strings.Contains(msg, "* parameter may not follow **"):
+		return "RParStarAfterKwargs"
+	case strings.Contains(msg, "multiple * parameters not allowed"):
+		return "RParMultipleStar"
+	case strings.Contains(msg, "multiple ** parameters not allowed"):
+		return "RParMultipleKwargs"
+	case strings.Contains(msg, "bare * must be followed"):
+		return "RParBareStar"
+	case strings.Contains(msg, "cannot reassign top-level"):
+		return "RLoadReassign"
+	case strings.Contains(msg, "cannot reassign"):
+		return "RReassign"
+	case strings.Contains(msg, "does not support sets"):
+		return "RSetUnsupported"
+	case strings.Contains(msg, "undefined:"):
+		return "RUndefined"
+	}
+	return "other:" + msg
+}
+
+func posID(p syntax.Position) int { return int(p.Line)*1000 + int(p.Col) }
+
+// ------------------------------------------------- syntax tree -> JSON term
+// A node is a JSON array: [tag, fields...].
+type J = []any
+
+func jExprs(es []syntax.Expr) []any {
+	out := []any{}
+	for _, e := range es {
+		out = append(out, jExpr(e))
+	}
+	return out
+}
+
+func jExpr(e syntax.Expr) any {
+	switch e := e.(type) {
+	case nil:
+		return J{"ELit"}
+	case *syntax.Ident:
+		return J{"EId", posID(e.NamePos), e.Name}
+	case *syntax.Literal:
+		return J{"ELit"}
+	case *syntax.ParenExpr:
+		return J{"EOp", []any{jExpr(e.X)}}
+	case *syntax.ListExpr:
+		return J{"EOp", jExprs(e.List)}
+	case *syntax.TupleExpr:
+		return J{"EOp", jExprs(e.List)}
+	case *syntax.CondExpr:
+		return J{"EOp", []any{jExpr(e.Cond), jExpr(e.True), jExpr(e.False)}}
+	case *syntax.IndexExpr:
+		return J{"EOp", []any{jExpr(e.X), jExpr(e.Y)}}
+	case *syntax.SliceExpr:
+		l := []any{jExpr(e.X)}
+		for _, x := range []syntax.Expr{e.Lo, e.Hi, e.Step} {
+			if x != nil {
+				l = append(l, jExpr(x))
+			}
+		}
+		return J{"EOp", l}
+	case *syntax.DictEntry:
+		return J{"EOp", []any{jExpr(e.Key), jExpr(e.Value)}}
+	case *syntax.DictExpr:
+		return J{"EOp", jExprs(e.List)}
+	case *syntax.UnaryExpr:
+		return J{"EOp", []any{jExpr(e.X)}}
+	case *syntax.BinaryExpr:
+		return J{"EOp", []any{jExpr(e.X), jExpr(e.Y)}}
+	case *syntax.DotExpr:
+		return J{"EOp", []any{jExpr(e.X)}}
+	case *syntax.CallExpr:
+		start, _ := e.Span()
+		args := []any{}
+		for _, a := range e.Args {
+			p, _ := a.Span()
+			if u, ok := a.(*syntax.UnaryExpr); ok && u.Op == syntax.STARSTAR {
+				args = append(args, J{"AStarStar", posID(p), jExpr(a)})
+			} else if ok && u.Op == syntax.STAR {
+				args = append(args, J{"AStar", posID(p), jExpr(a)})
+			} else if b, ok := a.(*syntax.BinaryExpr); ok && b.Op == syntax.EQ {
+				x := b.X.(*syntax.Ident)
+				args = append(args, J{"ANamed", posID(x.NamePos), x.Name, jExpr(b.Y)})
+			} else {
+				args = append(args, J{"APos", posID(p), jExpr(a)})
+			}
+		}
+		return J{"ECall", posID(start), jExpr(e.Fn), args}
+	case *syntax.LambdaExpr:
+		return J{"ELambda", posID(e.Lambda), jParams(e.Params), jExpr(e.Body)}
+	case *syntax.Comprehension:
+		first := e.Clauses[0].(*syntax.ForClause)
+		cl := []any{}
+		for _, c := range e.Clauses[1:] {
+			switch c := c.(type) {
+			case *syntax.ForClause:
+				cl = append(cl, J{"CFor", jLhs(c.Vars), jExpr(c.X)})
+			case *syntax.IfClause:
+				cl = append(cl, J{"CIf", jExpr(c.Cond)})
+			}
+		}
+		start, _ := e.Span()
+		return J{"EComp", posID(start), jExpr(first.X), jLhs(first.Vars), cl, jExpr(e.Body)}
+	}
+	panic(fmt.Sprintf("unexpected expr %T", e))
+}
+
+func jParams(ps []syntax.Expr) []any {
+	out := []any{}
+	for _, p := range ps {
+		switch p := p.(type) {
+		case *syntax.Ident:
+			out = append(out, J{"PId", posID(p.NamePos), p.Name})
+		case *syntax.BinaryExpr:
+			out = append(out, J{"PDef", posID(p.OpPos), p.X.(*syntax.Ident).Name, jExpr(p.Y)})
+		case *syntax.UnaryExpr:
+			if p.Op == syntax.STAR {
+				if id, _ := p.X.(*syntax.Ident); id != nil {
+					out = append(out, J{"PStar", posID(p.OpPos), J{posID(id.NamePos), id.Name}})
+				} else {
+					out = append(out, J{"PStar", posID(p.OpPos), nil})
+				}
+			} else {
+				id := p.X.(*syntax.Ident)
+				out = append(out, J{"PStarStar", posID(p.OpPos), posID(id.NamePos), id.Name})
+			}
+		}
+	}
+	return out
+}
+
+func jLhs(e syntax.Expr) any {
+	switch e := e.(type) {
+	case *syntax.Ident:
+		return J{"LId", posID(e.NamePos), e.Name}
+	case *syntax.IndexExpr:
+		return J{"LExpr", []any{jExpr(e.X), jExpr(e.Y)}}
+	case *syntax.DotExpr:
+		return J{"LExpr", []any{jExpr(e.X)}}
+	case *syntax.TupleExpr:
+		l := []any{}
+		for _, x := range e.List {
+			l = append(l, jLhs(x))
+		}
+		return J{"LSeq", posID(syntax.Start(e)), l}
+	case *syntax.ListExpr:
+		l := []any{}
+		for _, x := range e.List {
+			l = append(l, jLhs(x))
+		}
+		return J{"LSeq", posID(syntax.Start(e)), l}
+	case *syntax.ParenExpr:
+		return jLhs(e.X)
+	}
+	return J{"LBad", posID(syntax.Start(e))}
+}
+
+func jStmts(ss []syntax.Stmt) []any {
+	out := []any{}
+	for _, s := range ss {
+		out = append(out, jStmt(s))
+	}
+	return out
+}
+
+func jStmt(s syntax.Stmt) any {
+	switch s := s.(type) {
+	case *syntax.ExprStmt:
+		return J{"SExpr", jExpr(s.X)}
+	case *syntax.BranchStmt:
+		if s.Token == syntax.PASS {
+			return J{"SExpr", J{"ELit"}}
+		}
+		return J{"SBranch", posID(s.TokenPos)}
+	case *syntax.IfStmt:
+		return J{"SIf", posID(s.If), jExpr(s.Cond), jStmts(s.True), jStmts(s.False)}
+	case *syntax.AssignStmt:
+		return J{"SAssign", s.Op != syntax.EQ, jLhs(s.LHS), jExpr(s.RHS)}
+	case *syntax.DefStmt:
+		return J{"SDef", posID(s.Def), posID(s.Name.NamePos), s.Name.Name, jParams(s.Params), jStmts(s.Body)}
+	case *syntax.ForStmt:
+		return J{"SFor", posID(s.For), jLhs(s.Vars), jExpr(s.X), jStmts(s.Body)}
+	case *syntax.WhileStmt:
+		return J{"SWhile", posID(s.While), jExpr(s.Cond), jStmts(s.Body)}
+	case *syntax.ReturnStmt:
+		if s.Result == nil {
+			return J{"SReturn", posID(s.Return), nil}
+		}
+		return J{"SReturn", posID(s.Return), jExpr(s.Result)}
+	case *syntax.LoadStmt:
+		items := []any{}
+		for i := range s.From {
+			items = append(items, J{posID(s.From[i].NamePos), s.From[i].Name, posID(s.To[i].NamePos), s.To[i].Name})
+		}
+		return J{"SLoad", posID(s.Load), items}
+	}
+	panic(fmt.Sprintf("unexpected stmt %T", s))
+}
+
+// ------------------------------------------------------------------ generator
+// Base programs break no rule under ANY option vector: no while, no if/for at
+// top level, every global bound once and before use, only known names.
+type gen struct {
+	r      *hx.Rand
+	nglob  int
+	nfun   int
+	nloc   int
+	plant  string // source text of an expression-level plant (with the \x01 marker), "" if none/used
+	placed bool
+}
+
+func (g *gen) pick(n int) int { return g.r.Intn(n) }
+
+// names usable in an expression
+type scope struct {
+	names []string
+}
+
+func (s *scope) with(n ...string) *scope { return &scope{append(append([]string{}, s.names...), n...)} }
+
+func (g *gen) expr(sc *scope, depth int) string {
+	// an expression-level plant takes the first eligible slot with some probability
+	if g.plant != "" && !g.placed && g.pick(3) == 0 {
+		g.placed = true
+		return g.plant
+	}
+	if depth <= 0 {
+		switch g.pick(3) {
+		case 0:
+			return fmt.Sprint(g.pick(10))
+		case 1:
+			if len(sc.names) > 0 {
+				return sc.names[g.pick(len(sc.names))]
+			}
+			return "1"
+		default:
+			return "len"
+		}
+	}
+	switch g.pick(11) {
+	case 0:
+		return g.expr(sc, depth-1) + " + " + g.expr(sc, depth-1)
+	case 1:
+		return "[" + g.expr(sc, depth-1) + ", " + g.expr(sc, depth-1) + "]"
+	case 2:
+		return "log(" + g.expr(sc, depth-1) + ")"
+	case 3:
+		g.nloc++
+		v := fmt.Sprintf("c%d", g.nloc)
+		return "[" + g.expr(sc.with(v), depth-1) + " for " + v + " in [" + g.expr(sc, depth-1) + "]]"
+	case 4:
+		g.nloc++
+		p := fmt.Sprintf("p%d", g.nloc)
+		return "(lambda " + p + "=" + g.expr(sc, depth-1) + ": " + g.expr(sc.with(p), depth-1) + ")"
+	case 5:
+		return "(" + g.expr(sc, depth-1) + " if " + g.expr(sc, depth-1) + " else " + g.expr(sc, depth-1) + ")"
+	case 6:
+		return "{" + g.expr(sc, depth-1) + ": " + g.expr(sc, depth-1) + "}"
+	case 7:
+		return "log(" + g.expr(sc, depth-1) + ", k=" + g.expr(sc, depth-1) + ", *[" + g.expr(sc, depth-1) + "], **{})"
+	case 8:
+		g.nloc++
+		v, w := fmt.Sprintf("c%d", g.nloc), fmt.Sprintf("d%d", g.nloc)
+		return "[" + v + " for " + v + " in [1] if " + g.expr(sc.with(v), depth-1) + " for " + w + " in [" + v + "]]"
+	case 9:
+		return "(" + g.expr(sc, depth-1) + ")[0]"
+	default:
+		return g.expr(sc, 0)
+	}
+}
+
+type writer struct {
+	b strings.Builder
+}
+
+func (w *writer) line(indent int, s string) { w.b.WriteString(strings.Repeat("  ", indent) + s + "\n") }
+
+// ctx of a statement plant
+type site struct {
+	kind string // "top" "fn" "fn-for" "fn-if" "fn-def" "fn-for-def" "fn-for-lambda..."
+}
+
+// body statements of a function (valid), possibly hosting a statement plant
+func (g *gen) fnBody(w *writer, indent int, sc *scope, inLoop bool, depth int, plantStmt func(indent int, sc *scope, inLoop bool) bool) {
+	n := 1 + g.pick(3)
+	for i := 0; i < n; i++ {
+		if plantStmt != nil && g.pick(3) == 0 && plantStmt(indent, sc, inLoop) {
+			plantStmt = nil
+		}
+		switch g.pick(8) {
+		case 0, 1:
+			g.nloc++
+			v := fmt.Sprintf("v%d", g.nloc)
+			w.line(indent, v+" = "+g.expr(sc, 2))
+			sc = sc.with(v)
+		case 2:
+			w.line(indent, "if "+g.expr(sc, 1)+":")
+			if depth > 0 {
+				g.fnBody(w, indent+1, sc, inLoop, depth-1, nil)
+			} else {
+				w.line(indent+1, "pass")
+			}
+			if g.pick(2) == 0 {
+				w.line(indent, "else:")
+				w.line(indent+1, "log("+g.expr(sc, 1)+")")
+			}
+		case 3:
+			g.nloc++
+			v := fmt.Sprintf("i%d", g.nloc)
+			w.line(indent, "for "+v+" in ["+g.expr(sc, 1)+"]:")
+			if depth > 0 {
+				g.fnBody(w, indent+1, sc.with(v), true, depth-1, nil)
+			}
+			switch g.pick(3) {
+			case 0:
+				w.line(indent+1, "break")
+			case 1:
+				w.line(indent+1, "continue")
+			default:
+				w.line(indent+1, "log("+v+")")
+			}
+		case 4:
+			w.line(indent, "log("+g.expr(sc, 2)+")")
+		case 5:
+			if depth > 0 {
+				g.nfun++
+				f := fmt.Sprintf("h%d", g.nfun)
+				w.line(indent, "def "+f+"(q, r=2, *s, t=3, **u):")
+				g.fnBody(w, indent+1, sc.with("q", "r", "s", "t", "u"), false, depth-1, nil)
+				w.line(indent+1, "return q")
+				sc = sc.with(f)
+			} else {
+				w.line(indent, "pass")
+			}
+		case 6:
+			if inLoop {
+				w.line(indent, "if "+g.expr(sc, 0)+":")
+				w.line(indent+1, []string{"break", "continue"}[g.pick(2)])
+			} else {
+				w.line(indent, "pass")
+			}
+		default:
+			g.nloc++
+			v := fmt.Sprintf("v%d", g.nloc)
+			w.line(indent, v+" = 0")
+			w.line(indent, v+" += "+g.expr(sc.with(v), 1))
+			sc = sc.with(v)
+		}
+	}
+	if plantStmt != nil {
+		plantStmt(indent, sc, inLoop)
+	}
+}
+
+// A plant: what to write and what the language rules say about it.
+type expectation struct {
+	Rule string `json:"rule"`
+	Pos  int    `json:"pos"` // 0 = the marker
+}
+
+type plant struct {
+	Kind    string
+	IsExpr  bool
+	Expr    string                                 // expression text with marker
+	Stmt    func(w *writer, indent int, sc *scope) // writes statement text with marker
+	Where   []string                               // eligible sites for statement plants
+	Expect  func(o [6]bool, where string) []string // rules expected AT THE MARKER under option vector o
+	NeedsFn bool
+}
+
+// option indices
+const (
+	oSet = iota
+	oWhile
+	oTLC
+	oGR
+	oLBG
+	oRec
+)
+
+func always(r string) func([6]bool, string) []string {
+	return func([6]bool, string) []string { return []string{r} }
+}
+
+func manyArgs(named bool) string {
+	var as []string
+	for i := 0; i < 256; i++ {
+		if named {
+			as = append(as, fmt.Sprintf("k%d=0", i))
+		} else {
+			as = append(as, "0")
+		}
+	}
+	return "\x01log(" + strings.Join(as, ", ") + ")"
+}
+
+func plants() []*plant {
+	ps := []*plant{}
+	ex := func(kind, text, rule string) {
+		ps = append(ps, &plant{Kind: kind, IsExpr: true, Expr: text, Expect: always(rule)})
+	}
+	// call argument lists
+	ex("arg-pos-after-named", "log(k=1, \x012)", "RArgPosAfterNamed")
+	ex("arg-pos-after-star", "log(*[1], \x012)", "RArgPosAfterStar")
+	ex("arg-pos-after-kwargs", "log(**{}, \x012)", "RArgPosAfterKwargs")
+	ex("arg-named-after-kwargs", "log(**{}, \x01k=2)", "RArgNamedAfterKwargs")
+	ex("arg-named-after-star", "log(*[1], \x01k=2)", "RArgNamedAfterStar")
+	ex("arg-repeated", "log(k=1, \x01k=2)", "RArgRepeatedName")
+	ex("arg-multiple-kwargs", "log(**{}, \x01**{})", "RArgMultipleKwargs")
+	ex("arg-star-after-kwargs", "log(**{}, \x01*[1])", "RArgStarAfterKwargs")
+	ex("arg-multiple-star", "log(*[1], \x01*[2])", "RArgMultipleStar")
+	ex("arg-256-positional", manyArgs(false), "RArgTooManyPos")
+	ex("arg-256-named", manyArgs(true), "RArgTooManyNamed")
+	// lambda parameter lists
+	ex("lambda-dup", "(lambda a, \x01a: 1)", "RParDuplicate")
+	ex("lambda-dup-default", "(lambda a, a\x01=1: 1)", "RParDuplicate")
+	ex("lambda-dup-star", "(lambda a, *\x01a: 1)", "RParDuplicate")
+	ex("lambda-dup-kwargs", "(lambda a, **\x01a: 1)", "RParDuplicate")
+	ex("lambda-req-after-opt", "(lambda a=1, \x01b: 1)", "RParReqAfterOptional")
+	ex("lambda-req-after-kwargs", "(lambda **k, \x01a: 1)", "RParReqAfterKwargs")
+	ex("lambda-opt-after-kwargs", "(lambda **k, a\x01=1: 1)", "RParOptAfterKwargs")
+	ex("lambda-star-after-kwargs", "(lambda **k, \x01*a: 1)", "RParStarAfterKwargs")
+	ex("lambda-multiple-star", "(lambda *a, \x01*b: 1)", "RParMultipleStar")
+	ex("lambda-multiple-kwargs", "(lambda **a, \x01**b: 1)", "RParMultipleKwargs")
+	ex("lambda-bare-star", "(lambda a, \x01*: 1)", "RParBareStar")
+	// names
+	ex("undefined", "\x01nosuchname", "RUndefined")
+	ps = append(ps, &plant{Kind: "set", IsExpr: true, Expr: "\x01set([1])", Expect: func(o [6]bool, _ string) []string {
+		if o[oSet] {
+			return nil
+		}
+		return []string{"RSetUnsupported"}
+	}})
+	// statements
+	st := func(kind string, where []string, text []string, exp func([6]bool, string) []string) {
+		ps = append(ps, &plant{Kind: kind, Where: where, Expect: exp, Stmt: func(w *writer, indent int, sc *scope) {
+			for i, l := range text {
+				extra := 0
+				if i > 0 {
+					extra = 1
+				}
+				w.line(indent+extra, l)
+			}
+		}})
+	}
+	noLoop := []string{"top", "fn", "fn-if", "fn-def", "fn-for-def"}
+	st("break", noLoop, []string{"\x01break"}, always("RBranchNotInLoop"))
+	st("continue", noLoop, []string{"\x01continue"}, always("RBranchNotInLoop"))
+	st("return", []string{"top"}, []string{"\x01return 1"}, always("RReturnToplevel"))
+	inFn := []string{"fn", "fn-for", "fn-if", "fn-def", "fn-for-def"}
+	st("load-in-function", inFn, []string{"\x01load(\"m.star\", \"zz\")"}, always("RLoadInFunction"))
+	st("load-underscore", []string{"top"}, []string{"load(\"m.star\", \x01\"_zz\")"}, always("RLoadUnderscore"))
+	st("load-underscore-alias", []string{"top"}, []string{"load(\"m.star\", yy=\x01\"_zz\")"}, always("RLoadUnderscore"))
+	st("while", inFn, []string{"\x01while 0:", "pass"}, func(o [6]bool, _ string) []string {
+		if o[oWhile] {
+			return nil
+		}
+		return []string{"RWhileUnsupported"}
+	})
+	st("while-toplevel", []string{"top"}, []string{"\x01while 0:", "pass"}, func(o [6]bool, _ string) []string {
+		var r []string
+		if !o[oWhile] {
+			r = append(r, "RWhileUnsupported")
+		}
+		if !o[oTLC] {
+			r = append(r, "RWhileToplevel")
+		}
+		return r
+	})
+	tlc := func(rule string) func([6]bool, string) []string {
+		return func(o [6]bool, _ string) []string {
+			if o[oTLC] {
+				return nil
+			}
+			return []string{rule}
+		}
+	}
+	st("if-toplevel", []string{"top"}, []string{"\x01if 1:", "pass"}, tlc("RIfToplevel"))
+	st("for-toplevel", []string{"top"}, []string{"\x01for tl in []:", "pass"}, tlc("RForToplevel"))
+	st("aug-tuple", inFn, []string{"\x01aa, bb += 1"}, always("RAugSeq"))
+	st("aug-list", inFn, []string{"\x01[aa, bb] += 1"}, always("RAugSeq"))
+	st("assign-call", []string{"top", "fn", "fn-for"}, []string{"\x01log() = 1"}, always("RBadAssign"))
+	st("assign-literal", []string{"top", "fn", "fn-for"}, []string{"\x011 = 2"}, always("RBadAssign"))
+	st("assign-in-tuple", []string{"fn"}, []string{"aa, \x01log() = 1, 2"}, always("RBadAssign"))
+	st("def-dup", []string{"top", "fn", "fn-for"}, []string{"def dd(a, \x01a):", "pass"}, always("RParDuplicate"))
+	st("def-req-after-opt", []string{"top", "fn"}, []string{"def dd(a=1, \x01b):", "pass"}, always("RParReqAfterOptional"))
+	st("def-bare-star", []string{"top", "fn"}, []string{"def dd(a, \x01*):", "pass"}, always("RParBareStar"))
+	st("def-bare-star-kwargs", []string{"top", "fn"}, []string{"def dd(a, \x01*, **k):", "pass"}, always("RParBareStar"))
+	st("def-multiple-star", []string{"top", "fn"}, []string{"def dd(*a, \x01*, b):", "pass"}, always("RParMultipleStar"))
+	gr := func(rule string) func([6]bool, string) []string {
+		return func(o [6]bool, _ string) []string {
+			if o[oGR] {
+				return nil
+			}
+			return []string{rule}
+		}
+	}
+	st("global-reassign", []string{"top"}, []string{"gg = 1", "---", "\x01gg = 2"}, gr("RReassign"))
+	st("global-reassign-def", []string{"top"}, []string{"gg = 1", "---", "def \x01gg():", "pass"}, gr("RReassign"))
+	st("global-reassign-aug", []string{"top"}, []string{"gg = 1", "---", "\x01gg += 2"}, gr("RReassign"))
+	st("load-twice", []string{"top"}, []string{"load(\"m.star\", \"zz\")", "---", "load(\"m.star\", \x01\"zz\")"}, func(o [6]bool, _ string) []string {
+		switch {
+		case o[oGR]:
+			return nil
+		case o[oLBG]:
+			return []string{"RReassign"}
+		}
+		return []string{"RLoadReassign"}
+	})
+	st("load-then-assign", []string{"top"}, []string{"load(\"m.star\", \"zz\")", "---", "\x01zz = 2"}, gr("RReassign"))
+	st("assign-then-load", []string{"top"}, []string{"zz = 2", "---", "load(\"m.star\", \x01\"zz\")"}, func(o [6]bool, _ string) []string {
+		// a file-local load binding does not collide with a global; a global one does
+		if o[oLBG] && !o[oGR] {
+			return []string{"RReassign"}
+		}
+		return nil
+	})
+	st("use-before-def-toplevel", []string{"top"}, []string{"log(\x01later)", "---", "later = 1"}, func(o [6]bool, _ string) []string {
+		// legacy semantics ride on GlobalReassign: a top-level use then refers to what is bound so far
+		if o[oGR] {
+			return []string{"RUndefined"}
+		}
+		return nil
+	})
+	st("use-before-def-in-function", []string{"fn"}, []string{"log(\x01later2)", "---"}, func(o [6]bool, _ string) []string { return nil })
+	return ps
+}
+
+// one generated program
+type program struct {
+	Src    string
+	Kind   string
+	Where  string
+	Marker int // position id of the marker, 0 if no plant
+	plant  *plant
+}
+
+func (g *gen) program(p *plant) *program {
+	w := &writer{}
+	sc := &scope{}
+	out := &program{Kind: "valid", plant: p}
+	where := ""
+	if p != nil {
+		out.Kind = p.Kind
+		if p.IsExpr {
+			g.plant = p.Expr
+		} else {
+			where = p.Where[g.pick(len(p.Where))]
+		}
+	}
+	out.Where = where
+	var parts []string
+	if p != nil && !p.IsExpr {
+		tw := &writer{}
+		p.Stmt(tw, 0, sc)
+		parts = strings.Split(tw.b.String(), "---\n")
+	}
+	emitPart := func(ww *writer, indent int, part string) {
+		for _, l := range strings.Split(strings.TrimRight(part, "\n"), "\n") {
+			ww.line(indent, l)
+		}
+	}
+	stmtPlant := func(indent int, _ *scope, _ bool) bool {
+		for _, part := range parts {
+			emitPart(w, indent, part)
+		}
+		return true
+	}
+	// top level
+	w.line(0, "load(\"m.star\", \"la\", lb=\"lc\")")
+	sc = sc.with("la", "lb")
+	if where == "top" && len(parts) > 1 {
+		emitPart(w, 0, parts[0])
+		parts = parts[1:]
+	}
+	if p != nil && p.Kind == "use-before-def-in-function" {
+		// the global is bound after the function that uses it
+		parts = []string{strings.Replace(parts[0], "later2", "later2", 1)}
+	}
+	n := 2 + g.pick(3)
+	fnPlaced := false
+	for i := 0; i < n; i++ {
+		if where == "top" && i == n/2 {
+			for _, part := range parts {
+				emitPart(w, 0, part)
+			}
+		}
+		switch g.pick(3) {
+		case 0:
+			g.nglob++
+			v := fmt.Sprintf("g%d", g.nglob)
+			w.line(0, v+" = "+g.expr(sc, 2))
+			sc = sc.with(v)
+		case 1:
+			w.line(0, "log("+g.expr(sc, 2)+")")
+		default:
+			g.nfun++
+			f := fmt.Sprintf("f%d", g.nfun)
+			w.line(0, "def "+f+"(a, b=1, *args, k=2, **kw):")
+			fsc := sc.with("a", "b", "args", "k", "kw", f)
+			var host func(int, *scope, bool) bool
+			if where != "" && where != "top" && !fnPlaced {
+				fnPlaced = true
+				host = func(indent int, hsc *scope, inLoop bool) bool {
+					switch where {
+					case "fn":
+						if inLoop {
+							return false
+						}
+						return stmtPlant(indent, hsc, inLoop)
+					case "fn-for":
+						w.line(indent, "for z in [1]:")
+						stmtPlant(indent+1, hsc, true)
+						w.line(indent+1, "log(z)")
+						return true
+					case "fn-if":
+						if inLoop {
+							return false
+						}
+						w.line(indent, "if a:")
+						stmtPlant(indent+1, hsc, false)
+						w.line(indent+1, "log(a)")
+						return true
+					case "fn-def":
+						if inLoop {
+							return false
+						}
+						w.line(indent, "def inner(y):")
+						stmtPlant(indent+1, hsc, false)
+						w.line(indent+1, "return y")
+						return true
+					case "fn-for-def":
+						// a def inside a loop: the loop does not extend into the nested function
+						w.line(indent, "for z in [1]:")
+						w.line(indent+1, "def inner(y):")
+						stmtPlant(indent+2, hsc, false)
+						w.line(indent+2, "return y")
+						w.line(indent+1, "log(inner(z))")
+						return true
+					}
+					return false
+				}
+			}
+			g.fnBody(w, 1, fsc, false, 2, host)
+			w.line(1, "return a")
+			sc = sc.with(f)
+			if g.pick(2) == 0 {
+				w.line(0, "log("+f+"(1, k="+g.expr(sc, 1)+"))")
+			}
+		}
+	}
+	if where != "" && where != "top" && !fnPlaced {
+		// no function was generated: make one for the plant
+		w.line(0, "def host(a):")
+		switch where {
+		case "fn", "fn-if", "fn-def":
+			stmtPlant(1, sc, false)
+		case "fn-for":
+			w.line(1, "for z in [1]:")
+			stmtPlant(2, sc, true)
+		case "fn-for-def":
+			w.line(1, "for z in [1]:")
+			w.line(2, "def inner(y):")
+			stmtPlant(3, sc, false)
+			w.line(3, "return y")
+		}
+		w.line(1, "return a")
+	}
+	if p != nil && p.IsExpr && !g.placed {
+		w.line(0, "log("+g.plant+")")
+		g.placed = true
+	}
+	if p != nil && p.Kind == "use-before-def-in-function" {
+		w.line(0, "later2 = 5")
+	}
+	src := w.b.String()
+	if i := strings.Index(src, "\x01"); i >= 0 {
+		line := 1 + strings.Count(src[:i], "\n")
+		col := i - strings.LastIndex(src[:i], "\n")
+		out.Marker = line*1000 + col
+		src = strings.Replace(src, "\x01", "", 1)
+	}
+	out.Src = src
+	return out
+}
+
+// ------------------------------------------------------------------- running
+type rerr struct {
+	Rule string `json:"rule"`
+	Pos  int    `json:"pos"`
+}
+
+type run struct {
+	Opts     int    `json:"opts"` // bit i = option i (set, while, tlc, gr, lbg, rec)
+	Errs     []rerr `json:"errs"`
+	Accepted bool   `json:"accepted"`
+	Effects  int    `json:"effects"`
+	RunErr   string `json:"runerr,omitempty"`
+	Other    string `json:"other,omitempty"` // a non-resolver error or a panic
+}
+
+func optsOf(bits int) (*syntax.FileOptions, [6]bool) {
+	var o [6]bool
+	for i := 0; i < 6; i++ {
+		o[i] = bits&(1<<i) != 0
+	}
+	return &syntax.FileOptions{Set: o[0], While: o[1], TopLevelControl: o[2], GlobalReassign: o[3], LoadBindsGlobally: o[4], Recursion: o[5]}, o
+}
+
+func execute(src string, bits int) (res run) {
+	res.Opts = bits
+	res.Errs = []rerr{}
+	opts, _ := optsOf(bits)
+	effects := 0
+	logFn := starlark.NewBuiltin("log", func(*starlark.Thread, *starlark.Builtin, starlark.Tuple, []starlark.Tuple) (starlark.Value, error) {
+		effects++
+		return starlark.None, nil
+	})
+	pre := starlark.StringDict{"log": logFn}
+	thread := &starlark.Thread{Name: "c09", Load: func(*starlark.Thread, string) (starlark.StringDict, error) {
+		effects++
+		return starlark.StringDict{"la": starlark.MakeInt(1), "lc": starlark.MakeInt(2), "zz": starlark.MakeInt(3), "_zz": starlark.MakeInt(4)}, nil
+	}}
+	thread.SetMaxExecutionSteps(200000)
+	defer func() {
+		if r := recover(); r != nil {
+			res.Other = fmt.Sprintf("panic: %v", r)
+		}
+		res.Effects = effects
+	}()
+	_, err := starlark.ExecFileOptions(opts, thread, "p.star", src, pre)
+	if err == nil {
+		res.Accepted = true
+		return
+	}
+	switch err := err.(type) {
+	case resolve.ErrorList:
+		for _, e := range err {
+			res.Errs = append(res.Errs, rerr{ruleOf(e.Msg), posID(e.Pos)})
+		}
+	case *starlark.EvalError:
+		res.Accepted = true
+		res.RunErr = err.Error()
+		if len(res.RunErr) > 80 {
+			res.RunErr = res.RunErr[:80]
+		}
+	default:
+		res.Other = fmt.Sprintf("%T: %v", err, err)
+	}
+	return
+}
+
+type progOut struct {
+	Kind     string   `json:"kind"` // "prog"
+	Plant    string   `json:"plant"`
+	Where    string   `json:"where"`
+	Marker   int      `json:"marker"`
+	Src      string   `json:"src"`
+	Tree     any      `json:"tree"`
+	Runs     []run    `json:"runs"`
+	Problems []string `json:"problems"` // disagreements with the expectation from the language rules
+	Coq      bool     `json:"coq"`
+}
+
+func resolveMain(argv []string) {
+	fs := flag.NewFlagSet("resolve", flag.ExitOnError)
+	seed := fs.Uint64("seed", 1, "seed")
+	nprog := fs.Int("n", 400, "programs")
+	nvec := fs.Int("vectors", 8, "option vectors per program (64 = all)")
+	ncoq := fs.Int("coq", 100, "programs printed with their tree for Coq")
+	fs.Parse(argv)
+	r := hx.NewRand(*seed)
+	pl := plants()
+	dist := map[string]int{}
+	total, problems := 0, 0
+	universe := []string{}
+	for k := range starlark.Universe {
+		universe = append(universe, k)
+	}
+	sort.Strings(universe)
+	hx.Emit(map[string]any{"kind": "world", "predeclared": []string{"log"}, "universal": universe})
+	for i := 0; i < *nprog; i++ {
+		g := &gen{r: r.Split()}
+		var p *plant
+		if i%8 != 0 { // one in eight programs is left valid
+			p = pl[(i+int(r.Intn(3)))%len(pl)]
+		}
+		pr := g.program(p)
+		f, perr := (&syntax.FileOptions{}).Parse("p.star", pr.Src, 0)
+		out := &progOut{Kind: "prog", Plant: pr.Kind, Where: pr.Where, Marker: pr.Marker, Src: pr.Src, Problems: []string{}}
+		if perr != nil {
+			out.Problems = append(out.Problems, "generator: program does not parse: "+perr.Error())
+			hx.Emit(out)
+			problems++
+			continue
+		}
+		out.Tree = jStmts(f.Stmts)
+		// option vectors: all 64, or all-off, all-on and seeded others
+		var vecs []int
+		if *nvec >= 64 {
+			for b := 0; b < 64; b++ {
+				vecs = append(vecs, b)
+			}
+		} else {
+			vecs = []int{0, 63}
+			for len(vecs) < *nvec {
+				vecs = append(vecs, r.Intn(64))
+			}
+		}
+		for _, b := range vecs {
+			res := execute(pr.Src, b)
+			total++
+			_, o := optsOf(b)
+			// expectation from the language rules
+			var want []string
+			if p != nil {
+				want = p.Expect(o, pr.Where)
+			}
+			key := pr.Kind
+			if len(res.Errs) > 0 {
+				key += ":rejected"
+			} else {
+				key += ":accepted"
+			}
+			dist[key]++
+			switch {
+			case res.Other != "":
+				out.Problems = append(out.Problems, fmt.Sprintf("opts=%06b: %s", b, res.Other))
+			case len(want) == 0 && !res.Accepted:
+				out.Problems = append(out.Problems, fmt.Sprintf("opts=%06b: breaks no rule but was rejected: %v", b, res.Errs))
+			case len(want) > 0 && res.Accepted:
+				out.Problems = append(out.Problems, fmt.Sprintf("opts=%06b: accepted, but %v applies at %d (effects: %d)", b, want, pr.Marker, res.Effects))
+			case len(want) > 0:
+				if res.Errs[0].Rule != want[0] || res.Errs[0].Pos != pr.Marker {
+					out.Problems = append(out.Problems, fmt.Sprintf("opts=%06b: first error %v, expected %s at %d", b, res.Errs[0], want[0], pr.Marker))
+				}
+				got := map[string]bool{}
+				for _, e := range res.Errs {
+					if e.Pos == pr.Marker {
+						got[e.Rule] = true
+					}
+				}
+				for _, wr := range want {
+					if !got[wr] {
+						out.Problems = append(out.Problems, fmt.Sprintf("opts=%06b: %s not reported at %d: %v", b, wr, pr.Marker, res.Errs))
+					}
+				}
+				if len(res.Errs) != len(want) {
+					out.Problems = append(out.Problems, fmt.Sprintf("opts=%06b: errors %v, expected exactly %v at %d", b, res.Errs, want, pr.Marker))
+				}
+				if res.Effects != 0 {
+					out.Problems = append(out.Problems, fmt.Sprintf("opts=%06b: rejected program had %d host-visible effects", b, res.Effects))
+				}
+			}
+			out.Runs = append(out.Runs, res)
+		}
+		if len(out.Problems) > 0 {
+			problems++
+		}
+		out.Coq = i < *ncoq
+		if out.Coq || len(out.Problems) > 0 {
+			hx.Emit(out)
+		}
+	}
+	hx.Emit(map[string]any{"kind": "rsummary", "programs": *nprog, "runs": total, "problem_programs": problems, "dist": dist, "vectors": *nvec, "plants": len(pl)})
+	hx.Flush()
+}
